@@ -1,0 +1,60 @@
+/*
+ * Copyright (C) 2024 Nuts community
+ *
+ * This program is free software: you can redistribute it and/or modify
+ * it under the terms of the GNU General Public License as published by
+ * the Free Software Foundation, either version 3 of the License, or
+ * (at your option) any later version.
+ *
+ * This program is distributed in the hope that it will be useful,
+ * but WITHOUT ANY WARRANTY; without even the implied warranty of
+ * MERCHANTABILITY or FITNESS FOR A PARTICULAR PURPOSE.  See the
+ * GNU General Public License for more details.
+ *
+ * You should have received a copy of the GNU General Public License
+ * along with this program.  If not, see <https://www.gnu.org/licenses/>.
+ *
+ */
+
+package discovery
+
+import (
+	"context"
+	"encoding/base64"
+	"testing"
+
+	"github.com/nuts-foundation/go-did/vc"
+	"github.com/nuts-foundation/nuts-node/discovery/api/server/client"
+	"github.com/nuts-foundation/nuts-node/storage"
+	"github.com/stretchr/testify/assert"
+	"github.com/stretchr/testify/require"
+	"go.uber.org/mock/gomock"
+)
+
+// The presentations the client processes come from a remote Discovery Server: a JWT presentation without jti (no ID) and a
+// JSON-LD presentation (no JWT claims) must be refused with an error.
+func Test_clientUpdater_updateService_malformedRemotePresentation(t *testing.T) {
+	storageEngine := storage.NewTestStorageEngine(t)
+	require.NoError(t, storageEngine.Start())
+	b64 := base64.RawURLEncoding
+	withoutJTI := b64.EncodeToString([]byte(`{"alg":"ES256","typ":"JWT","kid":"did:example:alice#0"}`)) + "." +
+		b64.EncodeToString([]byte(`{"iss":"did:example:alice","vp":{"type":["VerifiablePresentation"]}}`)) + "." + b64.EncodeToString(make([]byte, 64))
+	jsonLD := `{"@context":["https://www.w3.org/2018/credentials/v1"],"id":"did:example:alice#1","type":["VerifiablePresentation"],"proof":{"type":"JsonWebSignature2020","verificationMethod":"did:example:alice#0"}}`
+	for name, raw := range map[string]string{"JWT without jti": withoutJTI, "JSON-LD": jsonLD} {
+		t.Run(name, func(t *testing.T) {
+			presentation, err := vc.ParseVerifiablePresentation(raw)
+			require.NoError(t, err)
+			resetStore(t, storageEngine.GetSQLDatabase())
+			ctrl := gomock.NewController(t)
+			store := setupStore(t, storageEngine.GetSQLDatabase())
+			httpClient := client.NewMockHTTPClient(ctrl)
+			httpClient.EXPECT().Get(gomock.Any(), gomock.Any(), gomock.Any()).Return(map[string]vc.VerifiablePresentation{"1": *presentation}, testSeed, 1, nil)
+			updater := newClientUpdater(testDefinitions(), store, alwaysOkVerifier, httpClient)
+
+			assert.NotPanics(t, func() {
+				err = updater.updateService(context.Background(), testDefinitions()[testServiceID])
+			})
+			assert.Error(t, err)
+		})
+	}
+}
